@@ -54,6 +54,8 @@ def run_C14(ctx, R):
     _per_config(ctx, R, eff.eff1)
     _per_config(ctx, R, eff.eff2)
     _per_config(ctx, R, eff.eff3)
+    from .rules import own
+    _per_config(ctx, R, own.own5)
     for cfg in ctx.configs():
         r = Results(config=cfg)
         eff.eff1_ir(ctx.ir(cfg), r)
@@ -260,6 +262,7 @@ def run_C11(ctx, R):
     _per_config(ctx, R, _only_functions(parse.tab1, {'cJSON_Duplicate_rec'}, 'TAB1', 2))
     _per_config(ctx, R, _only_functions(lst.lst1, {'cJSON_Duplicate_rec'}, 'LST1', 1))
     _per_config(ctx, R, _only_functions(tree.lst4, {'cJSON_Duplicate', 'cJSON_Duplicate_rec'}, 'LST4', 0))
+    _per_config(ctx, R, _only_functions(_own_cjson, {'cJSON_Duplicate', 'cJSON_Duplicate_rec'}, 'OWN2', 4))
 
 
 def run_C12(ctx, R):
@@ -273,7 +276,92 @@ def run_C12(ctx, R):
     _per_config(ctx, R, _only_functions(tree.lst4, {'cJSON_Compare'}, 'LST4', 1))
 
 
+PARSE_FNS = {'parse_value', 'parse_array', 'parse_object', 'parse_string', 'parse_number', 'cJSON_ParseWithLengthOpts',
+             'cJSON_ParseWithOpts', 'cJSON_Parse', 'cJSON_ParseWithLength', 'utf16_literal_to_utf8', 'parse_hex4',
+             'buffer_skip_whitespace', 'skip_utf8_bom'}
+
+
+def _own_cjson(units, r):
+    from .rules import own
+    own.own_engine(units, r, unit_name='cJSON.c', alloc_may_fail=True)
+    nsites = len([o for o in r.obs if o.rule == 'OWN2'])
+    r.floor('OWN2', 'allocation sites examined in cJSON.c', nsites, 55)
+    r.floor('OWN1', 'functions examined for NULL use in cJSON.c', len([o for o in r.obs if o.rule == 'OWN1']), 45)
+
+
+def run_C03(ctx, R):
+    from .rules import parse, own, tab
+    _per_config(ctx, R, parse.tab1)
+    _per_config(ctx, R, _only_functions(_own_cjson, PARSE_FNS, 'OWN2', 8))
+    _per_config(ctx, R, parse.tab5a)
+    _per_config(ctx, R, _only_functions(parse.tab17, PARSE_FNS, 'TAB17', 10))
+    _per_config(ctx, R, _only_functions(tab.tab8, PARSE_FNS, 'TAB8', 6))
+    _per_config(ctx, R, parse.tab4)
+    _per_config(ctx, R, parse.c03_structure)
+
+
+def run_C07(ctx, R):
+    from .rules import own, tree, lst
+    _per_config(ctx, R, own.own5)
+    _per_config(ctx, R, own.own6)
+    _per_config(ctx, R, own.own4_dangling)
+    _per_config(ctx, R, _own_cjson)
+    _per_config(ctx, R, own.verify_summaries)
+    _per_config(ctx, R, tree.tab14)
+    _per_config(ctx, R, own.ref_constructors)
+
+
+def run_C08(ctx, R):
+    from .rules import own
+    _per_config(ctx, R, _own_cjson)
+    _per_config(ctx, R, own.verify_summaries)
+    _per_config(ctx, R, own.own7)
+    _per_config(ctx, R, own.own4_dangling)
+
+
 PROPERTIES = {
+    'C03': {
+        'run': run_C03, 'modules': ['parse', 'own', 'utils'],
+        'explanation':
+            "TAB1: nesting deeper than CJSON_NESTING_LIMIT is refused before the recursive call on every cycle of the parser "
+            "(stack bounded by the limit). OWN1/OWN2 over the parse family under every NULL/non-NULL outcome of every "
+            "allocation: at each return no block allocated in the call is left without an owner that outlives it (rejection "
+            "leaves nothing behind). TAB5a: the escape switch maps exactly the RFC 8259 letters, its default arm fails, a zero "
+            "result of the UTF-16 routine is tested. TAB17: following the code under the hypothesis that an in-band-status "
+            "function (parse_hex4, utf16_literal_to_utf8, parse_*) returned its failure value reaches only failure returns. "
+            "TAB8: surrogate and digit range tests bound one variable. TAB4: literals are compared at their full length "
+            "(misspelt literals cannot match). C03S: every `return true` of parse_value and of the array/object parsers is "
+            "preceded on all paths by a store of the node type, the dispatch falls through to false, and the success label of "
+            "the containers is reached only through the comparison with the matching closing bracket.",
+        'not_decided': ['that every malformed text is rejected (the grammar as a language)', 'the exact lenient dialect'],
+    },
+    'C07': {
+        'run': run_C07, 'modules': ['own', 'tree', 'utils'],
+        'explanation':
+            "OWN5: every release of valuestring / child / string of a node in cJSON.c is reachable only through the clear edge of "
+            "a test of the ownership bit that describes that memory, on the same node, with no store to that node's type "
+            "between entry and the test. OWN6: the key parameter is not read after the item's own key was released (the key "
+            "may alias it). OWN4: no block is released twice or used after release on any path (typestate engine), and a "
+            "released field of longer-lived memory is overwritten before return. OWN2/OWN3: what a function allocates it "
+            "releases, links or returns on every path, including the failure outcomes of consume-on-success callees whose "
+            "summaries are re-checked against their bodies. TAB14: the duplicator clears the reference bit and shares only "
+            "constant keys. REFC: reference constructors clear the key, set the reference bit and clear both links; "
+            "cast_away_const results are only stored into fresh nodes.",
+        'not_decided': ['global allocator balance over arbitrary call histories (needs the heap)',
+                        "'releasing a reference never affects the referenced tree' beyond OWN5"],
+    },
+    'C08': {
+        'run': run_C08, 'modules': ['own', 'utils'],
+        'explanation':
+            "The failure index k of the property becomes 'every allocator call site x its NULL outcome', exhaustive over "
+            "sites: the typestate engine splits the state at each of the ~60 allocating calls of cJSON.c into the NULL and "
+            "the fresh-block outcome and follows both. OWN1: the NULL outcome is never dereferenced nor passed to a callee "
+            "that dereferences it (callee NULL-tolerance computed from the bodies). OWN2/OWN3: on the NULL outcome nothing "
+            "allocated earlier in the call stays allocated without an owner, including blocks handed to add_item_to_* when "
+            "that call can still fail at the site. OWN7: nothing reachable from a tree parameter is released or stored into "
+            "before an allocation that can still fail. OWN4: ensure() clears the buffer pointer it released.",
+        'not_decided': ["'still prints the same text afterwards' as a value", 'behaviour of the two allocator configurations at run time'],
+    },
     'C06': {
         'run': run_C06, 'modules': ['tree', 'utils'],
         'explanation':
@@ -289,7 +377,7 @@ PROPERTIES = {
                         'lookup semantics (first match, case folding)', 'success flags as values'],
     },
     'C11': {
-        'run': run_C11, 'modules': ['tree', 'parse', 'utils'],
+        'run': run_C11, 'modules': ['tree', 'parse', 'utils', 'own'],
         'explanation':
             "TAB14: every field of struct cJSON is either assigned in the duplicator or is a sibling link left zero; pointer "
             "fields of the copy receive fresh allocations (allocator closure computed from the bodies) or, for the key only, "
@@ -299,7 +387,7 @@ PROPERTIES = {
             "copy's child chain gets its tail link on every path that does not release the partial copy. LST4: NULL source "
             "refused.",
         'not_decided': ["'compares equal / prints identical' as values", 'independence under later edit histories beyond the '
-                        'no-sharing clause', 'release of the partial copy on every failure path (OWN2, C08)'],
+                        'no-sharing clause'],
     },
     'C12': {
         'run': run_C12, 'modules': ['tree', 'utils'],
@@ -366,7 +454,7 @@ PROPERTIES = {
     },
     'C14': {
         'run': run_C14,
-        'modules': ['eff'],
+        'modules': ['eff', 'own'],
         'explanation':
             "Who-may-call / provenance argument over the whole program (both library units, every function, every call "
             "site). EFF1: the C allocator (malloc/free/realloc and every other allocating libc function) is referenced "
